@@ -122,6 +122,11 @@ func normUStr(u *UStr) Value {
 			continue
 		}
 		if g, ok := m[a.S]; ok {
+			if len(g.S)+len(a.G.S) > 1<<20 {
+				// guards of a string union that keeps being rewritten inside a loop: count it
+				// against the unwinding bound before it exhausts memory
+				panic(outOfBound{"step budget exceeded (the guards of a symbolic string grew beyond 1 MiB)"})
+			}
 			m[a.S] = tOr(g, a.G)
 		} else {
 			m[a.S] = a.G
